@@ -91,6 +91,12 @@ func fn(c *core.Ctx, rel, recv, name string) *astx.DeclInfo {
 		key = rel + ".(" + recv + ")." + name
 	}
 	if d == nil || d.Decl.Body == nil {
+		if !ast.IsExported(name) {
+			// an unexported helper may be renamed, inlined or split at will: the rules keyed on it
+			// are not evaluated (visible as an unrecognised shape), nothing is alarmed
+			c.Unrecognised("anchor", key, "", "unexported anchor function not found (renamed, inlined or removed): the rules keyed on it are not evaluated")
+			return nil
+		}
 		c.Unknown("anchor", key, "", "anchor function not found: the rule is keyed on it (renamed or removed?)")
 		return nil
 	}
